@@ -20,6 +20,12 @@ import (
 
 var ElemLayoutOK, PointLayoutOK, ScalarLayoutOK bool
 
+// PointExtraFields: the Point struct carries state besides its four
+// coordinates (a flag, a memo...). Such a Point is never fabricated from raw
+// memory alone: it is first produced by the library's own constructor, so that
+// whatever the extra state means is set the way the library sets it.
+var PointExtraFields bool
+
 func init() {
 	et := reflect.TypeOf(field.Element{})
 	// the five limbs are located by name (l0..l4, uint64); further fields a
@@ -42,6 +48,7 @@ func init() {
 	found := 0
 	for i := 0; i < pt.NumField(); i++ {
 		f := pt.Field(i)
+		coord := false
 		for k, n := range []string{"x", "y", "z", "t"} {
 			if f.Name == n {
 				if f.Type != et {
@@ -49,7 +56,11 @@ func init() {
 				}
 				pointOff[k] = f.Offset
 				found++
+				coord = true
 			}
+		}
+		if !coord && f.Type.Size() > 0 {
+			PointExtraFields = true
 		}
 	}
 	if found != 4 {
@@ -588,7 +599,7 @@ func PointCoords(p ref.Pt, lambda *big.Int) [4]*big.Int {
 // layout guard holds (so that checks of other operations do not depend on
 // SetExtendedCoordinates); otherwise SetExtendedCoordinates.
 func MakePointFromElems(X, Y, Z, T *field.Element) *edwards25519.Point {
-	if PointLayoutOK {
+	if PointLayoutOK && !PointExtraFields {
 		var r [20]uint64
 		for i, e := range []*field.Element{X, Y, Z, T} {
 			l := LimbsOf(e)
@@ -596,9 +607,17 @@ func MakePointFromElems(X, Y, Z, T *field.Element) *edwards25519.Point {
 		}
 		return PointFromLimbs(r)
 	}
-	p, err := new(edwards25519.Point).SetExtendedCoordinates(X, Y, Z, T)
+	x, y, z, t := *X, *Y, *Z, *T
+	p, err := new(edwards25519.Point).SetExtendedCoordinates(&x, &y, &z, &t)
 	if err != nil {
 		panic("MakePoint: SetExtendedCoordinates rejected valid coordinates")
+	}
+	if PointLayoutOK {
+		// the library's constructor has set whatever else the struct holds;
+		// make sure the coordinates have exactly the requested limbs
+		for k, e := range []*field.Element{X, Y, Z, T} {
+			*(*field.Element)(unsafe.Add(unsafe.Pointer(p), pointOff[k])) = *e
+		}
 	}
 	return p
 }
